@@ -221,7 +221,11 @@ proof fn lemma_pointer(s: Seq<RTreeNode>, kl: int, b: int, plast: bool, idx: int
         sz_kids(s, kl, kl, idx) == idx * full(kl, b),
         0 <= idx * full(kl, b) <= s.len() * full(kl, b),
         s.len() * full(kl, b) <= 65535 * 2097124,
+        full(kl, b) * idx == idx * full(kl, b),
+        full(kl, b) * s.len() == s.len() * full(kl, b),
 {
+    assert(full(kl, b) * idx == idx * full(kl, b)) by (nonlinear_arith);
+    assert(full(kl, b) * s.len() == s.len() * full(kl, b)) by (nonlinear_arith);
     lemma_kids_size(s, kl, b, plast, idx);
     lemma_mul_mono(idx, s.len() as int, full(kl, b));
     lemma_mul_mono(s.len() as int, 65535, full(kl, b));
@@ -319,5 +323,55 @@ proof fn lemma_down_len(b: Seq<u8>, t: RTreeChildren, levels: int, l: int, p0: i
     if l <= levels {
         lemma_down_len(b, t, levels, l + 1, p0);
         lemma_level_len(fmt_down(b, t, levels, l + 1, p0), t, levels, l, kp(l, p0 + above(t, levels, l)));
+    }
+}
+// ---- the advertised end bound is the lexicographic maximum ----
+proof fn lemma_max_end_secs(v: Seq<Section>, n: int)
+    requires 0 <= n <= v.len(),
+    ensures
+        [[L: lemma/header_end_is_an_upper_bound_of_every_root_item_end]]
+        forall|i: int| 0 <= i < n ==> pos_le(sec_end(#[trigger] v[i]), max_end_secs(v, n)),
+        [[L: lemma/header_end_is_attained_or_zero_when_empty]]
+        n == 0 ==> max_end_secs(v, n) == (0u32, 0u32),
+        n > 0 ==> exists|i: int| 0 <= i < n && sec_end(#[trigger] v[i]) == max_end_secs(v, n),
+    decreases n,
+{
+    if n > 0 {
+        lemma_max_end_secs(v, n - 1);
+        let m = max_end_secs(v, n - 1);
+        let e = sec_end(v[n - 1]);
+        assert forall|i: int| 0 <= i < n implies pos_le(sec_end(#[trigger] v[i]), max_end_secs(v, n)) by {
+            if i < n - 1 { assert(pos_le(sec_end(v[i]), m)); }
+        }
+        if pos_le(m, e) {
+            assert(sec_end(v[n - 1]) == max_end_secs(v, n));
+        } else if n - 1 > 0 {
+            let j = choose|j: int| 0 <= j < n - 1 && sec_end(#[trigger] v[j]) == m;
+            assert(sec_end(v[j]) == max_end_secs(v, n));
+        }
+    }
+}
+proof fn lemma_max_end_nodes(v: Seq<RTreeNode>, n: int)
+    requires 0 <= n <= v.len(),
+    ensures
+        [[L: lemma/header_end_is_an_upper_bound_of_every_root_child_end]]
+        forall|i: int| 0 <= i < n ==> pos_le(node_end(#[trigger] v[i]), max_end_nodes(v, n)),
+        [[L: lemma/header_end_is_attained_by_a_root_child]]
+        n > 0 ==> exists|i: int| 0 <= i < n && node_end(#[trigger] v[i]) == max_end_nodes(v, n),
+    decreases n,
+{
+    if n > 0 {
+        lemma_max_end_nodes(v, n - 1);
+        let m = max_end_nodes(v, n - 1);
+        let e = node_end(v[n - 1]);
+        assert forall|i: int| 0 <= i < n implies pos_le(node_end(#[trigger] v[i]), max_end_nodes(v, n)) by {
+            if i < n - 1 { assert(pos_le(node_end(v[i]), m)); }
+        }
+        if pos_le(m, e) {
+            assert(node_end(v[n - 1]) == max_end_nodes(v, n));
+        } else if n - 1 > 0 {
+            let j = choose|j: int| 0 <= j < n - 1 && node_end(#[trigger] v[j]) == m;
+            assert(node_end(v[j]) == max_end_nodes(v, n));
+        }
     }
 }
